@@ -4,6 +4,7 @@ import (
 	"fmt"
 	"go/token"
 	"go/types"
+	"golang.org/x/tools/go/ssa/ssautil"
 	"regexp"
 	"sort"
 	"strings"
@@ -607,6 +608,102 @@ func isIntType(t types.Type) bool {
 	return ok && b.Info()&types.IsInteger != 0
 }
 
+var parsedIntFieldsCache = map[*ssa.Program]map[string]bool{}
+
+// parsedIntFields: "pkg.Type.field" of every integer struct field of the repository's packages that is
+// assigned, somewhere, a value computed from the result of strconv.Atoi / ParseInt / ParseUint.
+func parsedIntFields(prog *ssa.Program) map[string]bool {
+	if m, ok := parsedIntFieldsCache[prog]; ok {
+		return m
+	}
+	m := map[string]bool{}
+	parsedIntFieldsCache[prog] = m
+	var fromParse func(v ssa.Value, seen map[ssa.Value]bool, depth int) bool
+	fromParse = func(v ssa.Value, seen map[ssa.Value]bool, depth int) bool {
+		if v == nil || depth > 10 || seen[v] {
+			return false
+		}
+		seen[v] = true
+		switch x := v.(type) {
+		case *ssa.Extract:
+			if call, ok := x.Tuple.(*ssa.Call); ok && x.Index == 0 {
+				if sc := call.Call.StaticCallee(); sc != nil && sc.Pkg != nil && sc.Pkg.Pkg.Path() == "strconv" {
+					switch sc.Name() {
+					case "Atoi", "ParseInt", "ParseUint":
+						return true
+					}
+				}
+			}
+		case *ssa.BinOp:
+			return fromParse(x.X, seen, depth+1) || fromParse(x.Y, seen, depth+1)
+		case *ssa.Convert:
+			return fromParse(x.X, seen, depth+1)
+		case *ssa.ChangeType:
+			return fromParse(x.X, seen, depth+1)
+		case *ssa.Phi:
+			for _, e := range x.Edges {
+				if fromParse(e, seen, depth+1) {
+					return true
+				}
+			}
+		case *ssa.UnOp:
+			if x.Op == token.MUL {
+				if cell := core.CellOf(x.X); cell != nil {
+					for _, st := range core.StoresTo(cell) {
+						if fromParse(st.Val, seen, depth+1) {
+							return true
+						}
+					}
+				}
+			}
+		}
+		return false
+	}
+	for _, pkg := range prog.AllPackages() {
+		path := pkg.Pkg.Path()
+		if path != core.PkgGcsemu && path != core.PkgBttest && path != core.PkgGcsutil {
+			continue
+		}
+		for _, mem := range pkg.Members {
+			_ = mem
+		}
+	}
+	for fn := range ssautilAllFunctions(prog) {
+		if fn.Blocks == nil {
+			continue
+		}
+		pp := core.PkgPathOf(fn)
+		if pp != core.PkgGcsemu && pp != core.PkgBttest && pp != core.PkgGcsutil {
+			continue
+		}
+		for _, b := range fn.Blocks {
+			for _, in := range b.Instrs {
+				st, ok := in.(*ssa.Store)
+				if !ok || !isIntType(st.Val.Type()) {
+					continue
+				}
+				fa, ok := st.Addr.(*ssa.FieldAddr)
+				if !ok {
+					continue
+				}
+				n := core.NamedOf(fa.X.Type())
+				if n == nil || n.Obj().Pkg() == nil {
+					continue
+				}
+				np := n.Obj().Pkg().Path()
+				if np != core.PkgGcsemu && np != core.PkgBttest && np != core.PkgGcsutil {
+					continue
+				}
+				if fromParse(st.Val, map[ssa.Value]bool{}, 0) {
+					_, f, _ := core.FieldName(fa)
+					m[np+"."+n.Obj().Name()+"."+f] = true
+				}
+			}
+		}
+	}
+	return m
+}
+
 // requestIntSource: v is an integer read from a request.
 func requestIntSource(v ssa.Value) (string, bool) {
 	if !isIntType(v.Type()) {
@@ -631,6 +728,11 @@ func requestIntSource(v ssa.Value) (string, bool) {
 		}
 		if n.Obj().Pkg().Path() == core.PkgGcsemu && core.TName(n) == "byteRange" {
 			return "byteRange." + f, true
+		}
+		// any other integer field of a repository struct that some function of the package fills from a
+		// parsed request number (`&httpRange{start: size - n, length: n}` with n from strconv.ParseInt)
+		if x.Parent() != nil && parsedIntFields(x.Parent().Prog)[n.Obj().Pkg().Path()+"."+n.Obj().Name()+"."+f] {
+			return n.Obj().Name() + "." + f, true
 		}
 	case *ssa.Extract:
 		if call, ok := x.Tuple.(*ssa.Call); ok && x.Index == 0 {
@@ -1204,3 +1306,5 @@ func taintClosure(srcs []ssa.Value) map[ssa.Value]bool {
 	}
 	return set
 }
+
+func ssautilAllFunctions(prog *ssa.Program) map[*ssa.Function]bool { return ssautil.AllFunctions(prog) }
